@@ -241,6 +241,14 @@ CLAIMED = {
              "four fixed networks), labelled bounded.",
         note="Assumed: numba compiles the Python text of the loops. Not decided deductively: _check_connectivity (scipy csgraph), "
              "_branches_with_oos_buses."),
+    "C10": dict(
+        text="Proof for the generic in-service ext_grid, gen and xward (real _build_pp_ext_grid / _build_pp_gen / _build_pp_xward): the "
+             "slack contribution factor handed to the solver is the element's own slack_weight; with sums over the machines at a "
+             "bus as linear functionals, the real _split_p_for_gens_at_same_bus gives every reference machine of a shared reference "
+             "bus the deviation (p_bus - sum of setpoints) * w / sum(w) and leaves the PV gens at their setpoints. The equalisation "
+             "across buses by the Newton iteration is only a bounded stand-in (native runs on three fixed networks), labelled bounded.",
+        note="Assumed: A-LOOKUP, linearity of finite sums. Not decided deductively: newtonpf with the slack variable, weight "
+             "normalisation per island, xward result extraction."),
 }
 
 NOT_APPLICABLE = {
